@@ -68,6 +68,9 @@ def execute(prop, plan, seed, choices=None, want_choices=False, want_log=False):
             res['log_tail'] = [list(e) for e in sim.log[-120:]]
             if sim.crashes:
                 res['crashes'] = [[c[0], c[1], c[2][-1500:]] for c in sim.crashes[:4]]
+            from props import common as _c
+            res['driver_log'] = [list(x) for x in _c.LOGS if x[0] in ('ERROR', 'CRITICAL')][:12] + \
+                [list(x) for x in _c.LOGS if x[0] == 'WARNING'][:8]
         try:
             leaked = sim.teardown()
             if leaked:
